@@ -395,6 +395,9 @@ func (p *Processor) ChargingDataRelease(
 		return problemDetails
 	}
 
+	// the charging session is over: its reference no longer designates a record
+	delete(ue.Cdr, chargingSessionId)
+
 	return nil
 }
 
